@@ -80,7 +80,7 @@ pub fn check_text(grammar: &str, text: &str) -> Outcome {
 }
 
 pub fn run(ctx: &Ctx, rep: &mut Report) {
-    let n = ctx.budget(6_000, 600_000);
+    let n = ctx.budget(80_000, 1_200_000);
     let mut inconsistent = 0u64;
     for case in 0..n {
         let mut rng = ctx.rng("doc", case);
